@@ -3,6 +3,7 @@
 set -e
 cd "$(dirname "$0")"
 PYTHONHASHSEED=0 /venv/bin/python harness/gen_tables.py
+PYTHONHASHSEED=0 /venv/bin/python harness/gen_src.py /repo
 cd coq
 coq_makefile -f _CoqProject -o Makefile >/dev/null
 timeout 3000 make -j16 >/dev/null 2>make.err || { tail -30 make.err; exit 1; }
